@@ -96,6 +96,7 @@ func tmpRoot() string {
 			panic(err)
 		}
 		tmpBase, _ = filepath.EvalSymlinks(d)
+		os.Chmod(tmpBase, 0755) // programs running under another uid must be able to reach their files
 	})
 	return tmpBase
 }
